@@ -37,6 +37,8 @@ type boundsCtx struct {
 	// readAt is where the element is read: the expression itself, or the statement
 	// that took a snapshot of it (cur := acc[i])
 	readAt ast.Node
+	// at is the point of the obligation being decided: expressions are put in linear form as evaluated there
+	at cfgx.Point
 }
 
 func a5Check(r *core.Report, rule string, f *core.Func, extra ...a5Tactic) int {
@@ -113,33 +115,24 @@ func (bc *boundsCtx) isLenOf(e ast.Expr, base ast.Expr) bool {
 
 func (bc *boundsCtx) needOfIndex(base, idx ast.Expr, slice bool) needLen {
 	idx = ast.Unparen(idx)
-	// a local that is defined once as `len(base) - k` / a constant stands for its definition
-	if v := core.VarOf(bc.info, idx); v != nil {
-		if d, ok := core.SingleDef(bc.info, bc.f.Root().Body, v); ok && (d.Kind == "define" || d.Kind == "var") && d.Index < 0 {
-			if b, isBin := ast.Unparen(d.Rhs).(*ast.BinaryExpr); isBin && b.Op == token.SUB && bc.isLenOf(b.X, base) {
-				idx = ast.Unparen(d.Rhs)
-			}
-		}
+	at := bc.g.PointOf(idx)
+	l, ok := bc.linOf(idx, at)
+	if !ok {
+		return needLen{Idx: idx, Slice: slice}
 	}
-	if c, ok := core.ConstInt(bc.info, idx); ok {
+	switch {
+	case len(l.Atoms) == 0:
 		if slice {
-			return needLen{Min: c, Slice: true}
+			return needLen{Min: l.C, Slice: true}
 		}
-		return needLen{Min: c + 1}
-	}
-	if b, ok := idx.(*ast.BinaryExpr); ok {
-		if c, isC := core.ConstInt(bc.info, b.Y); isC {
-			if bc.isLenOf(b.X, base) && b.Op == token.SUB {
-				// x[len(x)-k]: need len(x) >= k (index) / len(x) >= k (slice bound)
-				return needLen{Min: c, LenRel: true, Slice: slice}
-			}
-			if b.Op == token.ADD {
-				return needLen{Idx: b.X, Off: c, Slice: slice}
-			}
-			if b.Op == token.SUB {
-				return needLen{Idx: b.X, Off: -c, Slice: slice}
-			}
+		return needLen{Min: l.C + 1}
+	case len(l.Atoms) == 1 && l.Coef[0] == 1 && l.Atoms[0].LenOf != nil && core.SameRef(bc.info, l.Atoms[0].LenOf, base):
+		// x[len(x)-k]: in range iff k >= 1 (k >= 0 for a slice bound) and len(x) >= k
+		if k := -l.C; k >= 1 || (slice && k == 0) {
+			return needLen{Min: k, LenRel: true, Slice: slice}
 		}
+	case len(l.Atoms) == 1 && l.Coef[0] == 1 && l.Atoms[0].Var != nil:
+		return needLen{Idx: l.Atoms[0].Id, Off: l.C, Slice: slice}
 	}
 	return needLen{Idx: idx, Slice: slice}
 }
@@ -154,17 +147,11 @@ func (bc *boundsCtx) obligation(e ast.Expr, base ast.Expr, need needLen) {
 		bc.r.Unknown(bc.rule, bc.f, construct, e.Pos(), "expression not found in the control-flow graph")
 		return
 	}
+	bc.at = p
 	facts := bc.g.FactsAt(p)
 	// facts from short-circuit evaluation inside the same condition
 	if node := p.Node(); node != nil {
-		if ce, ok := node.(ast.Expr); ok {
-			facts = append(facts, shortCircuitFacts(ce, e)...)
-		}
-		if as, ok := node.(*ast.AssignStmt); ok {
-			for _, rhs := range as.Rhs {
-				facts = append(facts, shortCircuitFacts(rhs, e)...)
-			}
-		}
+		facts = append(facts, shortCircuitFacts(node, e)...)
 	}
 	if how, ok := bc.byGuard(facts, base, need); ok {
 		bc.r.OK(bc.rule, bc.f, construct, e.Pos(), how)
@@ -188,6 +175,10 @@ func (bc *boundsCtx) obligation(e ast.Expr, base ast.Expr, need needLen) {
 		bc.r.OK(bc.rule, bc.f, construct, e.Pos(), how)
 		return
 	}
+	if how, ok := bc.bySearchResult(base, need, facts); ok {
+		bc.r.OK(bc.rule, bc.f, construct, e.Pos(), how)
+		return
+	}
 	for _, t := range bc.extra {
 		if how, ok := t(bc, e, base, need); ok {
 			bc.r.ReviewedOK(bc.rule, bc.f, construct, e.Pos(), how)
@@ -197,62 +188,47 @@ func (bc *boundsCtx) obligation(e ast.Expr, base ast.Expr, need needLen) {
 	bc.r.Bad(bc.rule, bc.f, construct, e.Pos(), "no dominating length guard, loop bound on the same base or reviewed invariant bounds this access: it can panic (index/slice out of range) for some input")
 }
 
-// shortCircuitFacts returns the facts implied by && / || evaluation order for
-// a sub-expression target of root.
-func shortCircuitFacts(root ast.Expr, target ast.Node) []cfgx.Fact {
+// shortCircuitFacts returns the facts implied by && / || evaluation order for a sub-expression target of a CFG
+// node (a condition, or a statement whose operands contain the condition: assignment, return, composite
+// literal field, call argument ...): every `A && <..target..>` on the way down gives A, every `A || <..target..>` gives !A.
+func shortCircuitFacts(root ast.Node, target ast.Node) []cfgx.Fact {
 	var out []cfgx.Fact
-	var walk func(e ast.Expr) bool
-	contains := func(e ast.Expr) bool { return e.Pos() <= target.Pos() && target.End() <= e.End() }
-	walk = func(e ast.Expr) bool {
-		e = ast.Unparen(e)
-		if !contains(e) {
-			return false
-		}
-		switch x := e.(type) {
+	path := core.PathTo(root, target)
+	for i, n := range path {
+		switch x := n.(type) {
+		case *ast.FuncLit:
+			out = nil // the body runs later: what held when the closure was made need not hold then
 		case *ast.BinaryExpr:
-			if x.Op == token.LAND || x.Op == token.LOR {
-				if contains(x.Y) {
-					out = append(out, cfgx.Atoms(x.X, x.Op == token.LAND)...)
-					walk(x.Y)
-				} else {
-					walk(x.X)
-				}
-				return true
-			}
-			walk(x.X)
-			walk(x.Y)
-		case *ast.UnaryExpr:
-			walk(x.X)
-		case *ast.CallExpr:
-			for _, a := range x.Args {
-				walk(a)
+			if (x.Op == token.LAND || x.Op == token.LOR) && i+1 < len(path) && path[i+1] == ast.Node(x.Y) {
+				out = append(out, cfgx.Atoms(x.X, x.Op == token.LAND)...)
 			}
 		}
-		return true
 	}
-	walk(root)
 	return out
 }
 
-// lenLowerBound extracts from one fact a lower bound for len(base).
+// lenLowerBound extracts from one fact a lower bound for len(base): the fact in linear form is
+// ±len(base) + d op 0 (`len(x) > 2`, `0 != len(x)`, and `last >= 0` for last := len(x) - 1).
 func (bc *boundsCtx) lenLowerBound(f cfgx.Fact, base ast.Expr) (int64, bool) {
-	if f.Tag != nil {
+	d, op, ok := bc.cmpLin(f, bc.at)
+	if !ok || len(d.Atoms) != 1 || d.Atoms[0].LenOf == nil || !core.SameRef(bc.info, d.Atoms[0].LenOf, base) {
 		return 0, false
 	}
-	x, op, c, ok := cmpConst(bc.info, f.Cond)
-	if !ok || !bc.isLenOf(x, base) {
+	switch d.Coef[0] {
+	case 1:
+	case -1:
+		d, op = d.neg(), flipCmp(op)
+	default:
 		return 0, false
 	}
-	if !f.Val {
-		op = negate(op)
-	}
+	// len(base) + d.C op 0
 	switch op {
 	case token.EQL, token.GEQ:
-		return c, true
+		return -d.C, true
 	case token.GTR:
-		return c + 1, true
+		return -d.C + 1, true
 	case token.NEQ:
-		if c == 0 {
+		if d.C == 0 {
 			return 1, true
 		}
 	}
@@ -326,59 +302,37 @@ func (bc *boundsCtx) byLoop(e ast.Expr, base ast.Expr, need needLen, facts []cfg
 			return "T2 range index over X, base allocated as make(_, len(X))", true
 		}
 	}
-	// (b) i >= 0 by construction and a dominating i (+k) < len(base) (-m)
-	lower := bc.nonNegative(iv)
-	if !lower {
+	// (b) i >= c0 by construction (set to constants, only incremented), c0 + Off >= 0, and a dominating fact that
+	// reads i + a < len(base) (or <=) in linear form
+	lo, hasLo := bc.minStart(iv)
+	if !hasLo || lo+need.Off < 0 {
 		return "", false
 	}
 	for _, f := range facts {
-		if f.Tag != nil {
+		d, op, ok := bc.cmpLin(f, bc.at)
+		if !ok || len(d.Atoms) != 2 {
 			continue
 		}
-		b, ok := ast.Unparen(f.Cond).(*ast.BinaryExpr)
-		if !ok {
+		ci, cl := d.coefOfVar(iv), bc.coefOfLen(d, base)
+		if ci == -1 && cl == 1 {
+			d, op = d.neg(), flipCmp(op)
+			ci, cl = 1, -1
+		}
+		if ci != 1 || cl != -1 {
 			continue
 		}
-		op := b.Op
-		if !f.Val {
-			op = negate(op)
-		}
-		// left side: i or i + k (k >= 0): `i + k < len - m` is `i < len - (m + k)`
-		var lk int64
-		if core.VarOf(bc.info, b.X) != iv {
-			lb, isBin := ast.Unparen(b.X).(*ast.BinaryExpr)
-			if !isBin || lb.Op != token.ADD || core.VarOf(bc.info, lb.X) != iv {
-				continue
-			}
-			c, isC := core.ConstInt(bc.info, lb.Y)
-			if !isC || c < 0 {
-				continue
-			}
-			lk = c
-		}
-		// right side: len(base) or len(base)-m
-		var m int64
-		rhs := ast.Unparen(b.Y)
-		if bb, ok := rhs.(*ast.BinaryExpr); ok && bb.Op == token.SUB {
-			if c, isC := core.ConstInt(bc.info, bb.Y); isC {
-				m, rhs = c, bb.X
-			}
-		}
-		if !bc.isLenOf(rhs, base) {
-			continue
-		}
-		// i < len-m  => i+Off < len  iff Off <= m ; for slices i+Off <= len iff Off <= m+1
-		limit := m + lk
+		// i + d.C - len op 0
+		limit := d.C // i + a < len  =>  i + Off < len iff Off <= a
 		if op == token.LEQ {
-			limit = m - 1
+			limit = d.C - 1
 		} else if op != token.LSS {
 			continue
 		}
 		if need.Slice {
-			limit++
+			limit++ // i + Off <= len suffices
 		}
-		if need.Off <= limit && need.Off >= 0 {
-			return "T2 loop/guard bound " + core.ExprStr(f.Cond) + " on the same base, index starts at a non-negative constant and only increases", true
+		if need.Off <= limit {
+			return "T2 loop/guard bound " + core.ExprStr(f.Cond) + " on the same base, index starts at a constant >= " + itoa(-need.Off) + " and only increases", true
 		}
 	}
 	return "", false
@@ -466,7 +420,8 @@ func (bc *boundsCtx) nonNegExpr(e ast.Expr, facts []cfgx.Fact) bool {
 
 func (bc *boundsCtx) sizeObligation(call *ast.CallExpr, arg ast.Expr) {
 	construct := "count argument " + core.ExprStr(arg) + " of " + core.ExprStr(call.Fun) + " is never negative"
-	facts := bc.g.FactsAt(bc.g.PointOf(call))
+	bc.at = bc.g.PointOf(call)
+	facts := bc.g.FactsAt(bc.at)
 	if bc.nonNegExpr(arg, facts) {
 		bc.r.OK(bc.rule, bc.f, construct, call.Pos(), "T6 non-negative by construction (lengths, constants, sums/products, guarded differences)")
 		return
